@@ -12,6 +12,7 @@ RULE = ("finite space, enumerated completely: for int {min,max}, float {min,max,
         "== and structural fingerprint of results) must agree across the permutations of a set. A case = one (type, value, set); "
         "distinct by construction; non-trivial = >=2 refinements (>=2 permutations).")
 ASSUMPTIONS = ["the parameter universes below are the 'small boundary universe' of the property"]
+REACH_FILES = ['d42/declaration/types/_str_schema.py', 'd42/declaration/types/_int_schema.py', 'd42/declaration/types/_float_schema.py', 'd42/declaration/types/_list_schema.py']
 TIERS = {"quick": dict(shards=16, universe="large"), "thorough": dict(shards=16, universe="xlarge")}
 
 
